@@ -219,4 +219,42 @@ def run(ctx, rep):
                     okg &= ("place:is_local", False) in at
         rep.ob("symtab-partition", "define_symbol:local-slot", loc == 1 and okl, "local_entries is consumed exactly on the is_local edge", ds_.file, ds_.line)
         rep.ob("symtab-partition", "define_symbol:global-slot", glob == 1 and okg, "global_entries is consumed exactly on the !is_local edge", ds_.file, ds_.line)
+    # ---- entry contents: which quantity goes into which field ---------------------------------------------------------
+    rep.rule("entry-fields", "define_symbol stores st_name <- offset returned by write_str, st_shndx <- the section index, st_value <- value, st_size <- size; the copy functions pass "
+             "(is_symtab_local, section, value, st_size(sym), name) in that order and copy st_info/st_other from the input symbol")
+    from mir import alternatives, simplify
+
+    def _r(b, o, d=6):
+        with alternatives():
+            return render(simplify(expr_tree(P, b, o, depth=d, expand_params=0)))
+    if ds_ is not None:
+        flow = P.flow(ds_)
+        sets = {}
+        for bi, t in flow.calls():
+            k = callee_key(t["f"]) or ""
+            if k.startswith("object::U") and k.endswith("::set") and len(t["args"]) >= 3:
+                sets.setdefault(_r(ds_, t["args"][0], 5).split(".")[-1], []).append(_r(ds_, t["args"][2], 7))
+        want = {"st_name": "write_str(", "st_shndx": ".1", "st_value": "value", "st_size": "size"}
+        for f_, w in want.items():
+            got = sets.get(f_, [])
+            ok = len(got) == 1 and (got[0] == w if w in ("value", "size") else w in got[0])
+            rep.ob("entry-fields", f"define_symbol:{f_}", ok, f"{f_} <- {got}", ds_.file, ds_.line)
+    for fn, want_args in (("copy_symbol_shndx", {1: "is_symtab_local(", 3: "value", 4: "st_size(sym", 5: "name"}), ("copy_absolute_symbol", {1: "is_symtab_local(", 3: "st_value(sym", 4: "st_size(sym", 5: "name"})):
+        b = next((x for x in F.all_bodies if stable(x.key).endswith("SymbolTableWriter::" + fn)), None)
+        if b is None:
+            continue
+        flow = P.flow(b)
+        for bi, t in flow.calls():
+            if (callee_key(t["f"]) or "").endswith("SymbolTableWriter::define_symbol"):
+                args = [_r(b, a) for a in t["args"]]
+                for i_, w in want_args.items():
+                    ok = i_ < len(args) and (args[i_] == w if w in ("value", "name") else args[i_].startswith(w))
+                    rep.ob("entry-fields", f"{fn}:arg{i_}", ok, f"define_symbol argument {i_} = {args[i_] if i_ < len(args) else None} (expected {w}…)", b.file, t["l"])
+        stores = {}
+        for blk in b.blocks:
+            for st in blk["s"]:
+                if st["k"] == "assign" and st["p"][1] and st["rv"]["k"] == "use" and any(x in (".st_info", ".st_other") for x in st["p"][1]):
+                    stores[[x for x in st["p"][1] if x.startswith(".st_")][-1]] = _r(b, st["rv"]["a"], 5)
+        rep.ob("entry-fields", f"{fn}:st_info", stores.get(".st_info", "").startswith("st_info(sym"), f"st_info <- {stores.get('.st_info')} (type and binding of the input symbol)", b.file, b.line)
+        rep.ob("entry-fields", f"{fn}:st_other", stores.get(".st_other", "").startswith("st_other(sym"), f"st_other <- {stores.get('.st_other')} (visibility of the input symbol)", b.file, b.line)
     rep.assume("final values, sizes, types and the order of symbol-table entries are runtime quantities: not decided")
